@@ -77,13 +77,20 @@ func (c10) Run(c *mon.Ctx, i int) {
 		if s.Level == -2 {
 			ro = 65536
 		}
-		n := 2*ro + r.Range(0, 500)
-		d = gen.Make(r, gen.Families[r.Intn(len(gen.Families))], n)
-		a := ro + r.Range(-2, 2)
-		b := 2*ro + r.Range(-2, 2)
-		if b > n {
-			b = n
+		// the input buffer is full at ro, then again every (W+258) bytes (the
+		// Huffman-only block every 64 KiB): flush on, just before and just after
+		// two such points, k cycles apart
+		cyc := w + 258
+		if s.Level == -2 {
+			cyc = 65536
 		}
+		a := ro + r.Pick(0, 0, 1)*cyc + r.Pick(0, 0, 0, -1, 1, -2, 2)
+		b := a + r.Pick(1, 1, 2, 3)*cyc
+		if r.Chance(1, 3) {
+			b += r.Pick(-1, 1)
+		}
+		n := b + r.Range(0, 500)
+		d = gen.Make(r, gen.Families[r.Intn(len(gen.Families))], n)
 		ops = []gen.Op{{Kind: "write", N: a}, {Kind: "flush"}, {Kind: "write", N: b - a}, {Kind: "flush"}, {Kind: "write", N: n - b}, {Kind: "close"}}
 	default:
 		d = gen.RandomData(r, 200000)
